@@ -382,6 +382,16 @@ def sampler_edits(ms, loc, g, out):
     if j != i:
         v2 = differ(g, pl["note_samples"][j], lambda: g.pick(0, 255))
         out.append(Edit(f"{base}/payload/note_samples[{j}]", (lambda root, j=j, v2=v2: nav(root, loc).note_samples.update({list(nav(root, loc).note_samples)[j]: v2})), v2, cls="sampler-map-update"))
+    # notes are UN-mapped from the top of the map downwards (the tail of the map becomes zeros)
+    nz = [k for k, x in enumerate(pl["note_samples"]) if x]
+    if nz:
+        cut = nz[-1] if rng.random() < 0.5 else rng.choice(nz)
+        tail = list(pl["note_samples"][:cut]) + [0] * (len(pl["note_samples"]) - cut)
+        def unmap_tail(root, cut=cut):
+            ns = nav(root, loc).note_samples
+            for key in list(ns)[cut:]:
+                ns[key] = 0
+        out.append(Edit(f"{base}/payload/note_samples", unmap_tail, tail, cls="sampler-map-tail-unmapped"))
     for f, mk in (("vibrato_attack", lambda: g.pick(0, 255)), ("vibrato_depth", lambda: g.pick(0, 255)), ("vibrato_rate", lambda: g.pick(0, 63)),
                   ("volume_fadeout", lambda: g.pick(0, 8192)), ("volume_old", lambda: g.pick(0, 255)), ("ins_finetune", lambda: g.pick(-128, 127)),
                   ("ins_relative_note", lambda: g.pick(-128, 127)), ("editor_cursor", g.i32), ("editor_selected_size", g.i32),
